@@ -120,6 +120,36 @@ def check_case(schema, tname, val, codec=None, rw=None):
     except Exception as ex:
         return ("operation after copy_from raised %s: %s" % (type(ex).__name__, ex),
                 {'exception': common.exc_info(ex)})
+    # the value of a present optional field is a message of its type like any other: target and source of copy_from
+    for holder in schema.structs():
+        for m in holder.members:
+            if m.kind != OPT or m.type not in schema.by_name or schema.resolve(m.type) is not schema.resolve(tname):
+                continue
+            try:
+                H = codec.new(holder.name)
+                setattr(H, m.name, True)
+                sub = getattr(H, m.name)
+                E = codec.build(tname, raw_a)
+                sub.copy_from(E)
+                if not pyh.values_equal(snap(sub), a):
+                    return fail("copy_from into the value of an optional field does not yield an equal message",
+                                holder=holder.name, field=m.name)
+                overwrite(E, schema, tname, c)
+                if not pyh.values_equal(snap(sub), a):
+                    return fail("mutating the source changed the optional field's value it was copied into",
+                                holder=holder.name, field=m.name)
+                F = codec.new(tname)
+                F.copy_from(sub)
+                H2 = codec.new(holder.name)
+                setattr(H2, m.name, True)
+                getattr(H2, m.name).copy_from(sub)
+                overwrite(sub, schema, tname, d)
+                if not pyh.values_equal(snap(F), a) or not pyh.values_equal(snap(getattr(H2, m.name)), a):
+                    return fail("copy_from out of the value of an optional field is not an equal independent message",
+                                holder=holder.name, field=m.name)
+            except Exception as ex:
+                return ("copy_from between a message and the value of an optional field of its type raised %s: %s" % (
+                    type(ex).__name__, ex), {'exception': common.exc_info(ex), 'holder': holder.name, 'field': m.name})
     # extend() of composite arrays copies its arguments
     for holder in schema.structs():
         for m in holder.members:
